@@ -24,6 +24,7 @@ func (t *T0x0200) Parse(jtMsg *jt808.JTMessage) error {
 	if err := t.T0x0200LocationItem.parse(body); err != nil {
 		return err
 	}
+	t.T0x0200AdditionDetails.Additions = nil // 没有附加信息的报文 不保留上一次解析的附加信息
 	if len(body) > 28 {
 		return t.T0x0200AdditionDetails.parse(body[28:])
 	}
